@@ -37,13 +37,14 @@ METHODS = ['DOP853', 'RK45', 'RK23']
 MU_T = [0.05, 0.3, 3.0, 30.0, 1e3, 1e5]
 TAND = [0.0, 0.02, 0.5]
 LS = [2, 3, 4, 5, 7, 10]
-R0F = [1e-2, 1e-3, 5e-2]
+R0F = [5e-2, 1e-2, 1e-3]
 BODIES = [(6e6, 5500.0), (1e5, 3500.0), (1e6, 1000.0), (1e8, 8000.0)]
 W2_DYN = [1e-7, 1e-6]
 W2_STAT = [1e-7, 1e-10]      # static families ignore omega; the second value checks exactly that
 
-# quick tier: 3 mu~ x 2 tan d x l in {2,3,5} x 3 integrators x 5 families x 1 r0 x 1 body = 270 cases
-Q_MU_T = [0.05, 3.0, 1e3]
+# quick tier: 3 mu~ x 2 tan d x l in {2,3,5} x 3 integrators x 5 families x 1 r0 (0.05: the largest, where a defective
+# starting vector is visible) x 1 body = 270 cases
+Q_MU_T = [0.3, 3.0, 1e3]      # (0.05 is conditioning-inadmissible for the four compressible families)
 Q_TAND = [0.0, 0.5]
 Q_LS = [2, 3, 5]
 
@@ -61,7 +62,7 @@ START_UNDERFLOW = 1e-15       # = ATOL/1000
 C_DYN = 5.0
 C_K = 1.0
 TOL_FLOOR = 1e-7
-GATE_FACTOR = 10.0
+GATE_FACTOR = 20.0            # the finer RK23 run is off by up to 2.1x the gate difference (pristine) -> 20 keeps a 10x margin
 # Kamata dynamic-incompressible is ill-conditioned in the quasi-static regime (DESIGN C01 "Gate"): runs that agree with
 # their rtol/100 twin to 1e-10 are still off by up to 8e-7 (DOP853) / 2.9e-5 (RK45) through amplified rounding / atol
 # interplay that no two-level gate can see.  Its floor is therefore per integrator (>= 10x the pristine worst).
@@ -220,7 +221,7 @@ MIN_ADMIT = {('kamata-dynamic-incompressible', 'DOP853'): 0.25, ('kamata-dynamic
 
 
 def run(ctx):
-    from mc.core import run_lattice, HarnessError
+    from mc.core import run_lattice
     cs = cases(ctx.tier, ctx.seed)
     res = run_lattice(
         ctx, 'mc.props.C01:run_case', cs,
@@ -238,17 +239,36 @@ def run(ctx):
         b[1] += 1
         if not st.startswith('inadmissible'):
             b[0] += 1
-    worst = {}
+    worst, worst_pass = {}, {}
     for c, r in zip(cs, res):
         if 'err' in r:
             k = c['fam']
             worst[k] = max(worst.get(k, 0.0), r['err'] / r['tol'])
+            if not r.get('viol') and r['err'] / r['tol'] > worst_pass.get(k, (0.0,))[0]:
+                worst_pass[k] = (r['err'] / r['tol'], dict(case=c, err=r['err'], tol=r['tol'], gate=r['gate']))
+    ctx.coverage['worst_passing_case_by_family'] = {k: dict(v[1], err_over_tol=float('%.3g' % v[0])) for k, v in sorted(worst_pass.items())}
     ctx.coverage['admitted_by_block'] = {f'{k[0]}/{k[1]}': f'{v[0]}/{v[1]}' for k, v in sorted(blocks.items())}
     ctx.coverage['worst_err_over_tol_by_family'] = {k: float('%.3g' % v) for k, v in sorted(worst.items())}
     ctx.coverage['tolerance'] = dict(rtol=RTOL, atol=ATOL, gate=GATE, c_dyn=C_DYN, c_K=C_K, floor=TOL_FLOOR,
                                      gate_factor=GATE_FACTOR, kdi_floor=KDI_FLOOR, a_s=A_S, a_d=A_D, y6_law=Y6_LAW)
+    short = []
     for (fam, meth), (adm, tot) in sorted(blocks.items()):
         need = MIN_ADMIT.get((fam, meth), MIN_ADMIT_DEFAULT)
         if tot and adm < need * tot:
-            raise HarnessError(f'vacuity guard: block ({fam}, {meth}) admits only {adm}/{tot} cases (< {need:.0%}); '
-                               f'no verdict')
+            short.append(f'({fam}, {meth}) admits only {adm}/{tot} (< {need:.0%})')
+    vacuity_guard(ctx, short)
+
+
+def vacuity_guard(ctx, short):
+    """A block that admits too few cases turns a *silent* run into 'no verdict' (exit 2). When fresh violations were
+    found the run is reported as such (exit 1) and the thin blocks are only noted -- a defect that also makes the
+    integration harder must not be hidden behind the guard."""
+    from mc.core import Findings, HarnessError
+    if not short:
+        return
+    f = Findings()
+    fresh = [v for v in ctx.violations if f.match(ctx.prop, v['site']) is None]
+    if fresh:
+        ctx.note('vacuity guard tripped but fresh violations exist, reporting them: ' + '; '.join(short)[:400])
+        return
+    raise HarnessError('vacuity guard: ' + '; '.join(short)[:600] + '; no verdict')
